@@ -25,6 +25,9 @@ def main():
         rc, out, err = sh(f"git -C /repo worktree add -q --detach {wt} HEAD", "/")
         assert rc == 0, err
         patch, equiv = os.path.join(src, "patch.diff"), os.path.join(src, "equiv.py")
+        # byte-compile first: compile-time SyntaxWarnings of the library (emitted once, when the .pyc is written) must not be
+        # part of only ONE of the two digests
+        sh(f"{PY} -m compileall -q gcmpy", wt)
         rc, before, err = sh(f"{PY} {equiv}", wt, 900)
         if rc != 0:
             print("REJECT: equiv.py fails on the original tree\n" + err[-400:])
